@@ -15,8 +15,9 @@ LEVEL_TEXT = ("Inv (child lists and parent pointers agree, no duplicates, parent
 LEVEL_NOTE = ("Trusted: Lean kernel, standard axioms only; the hand-written mirror lean/Anytree/Model/Forest.lean; hooks "
               "only observe or raise (they do not mutate the tree); asynchronous exceptions between the two statements "
               "of an ATOMIC block and mixed NodeMixin/LightNodeMixin trees are outside the model; non-node arguments to "
-              "LightNodeMixin classes are outside the model.")
-MODULES = ['Anytree.Props.C01', 'Anytree.Props.C01b', 'Anytree.Props.C01c', 'Anytree.Props.C01d']
+              "LightNodeMixin classes are outside the model."
+              " Hooks that make structural calls of their own are outside the model (its hooks observe or raise); one class of them - a hook that detaches ANOTHER node while the call is in progress - is exercised in the correspondence run against the mirror run on the nested call followed by the outer one (driver field pre_ops); for a parent assignment this equivalence is proved of the extended mirror (Model/ForestR.lean, C02r.setParentR_eq_seq, inv_setParentR); for children assignment/deletion it is searched, not proved.")
+MODULES = ['Anytree.Props.C01', 'Anytree.Props.C01b', 'Anytree.Props.C01c', 'Anytree.Props.C01d', 'Anytree.Props.C02r']
 THEOREMS = [
     ("Anytree.Props.C01.inv_empty", "full"),
     ("Anytree.Props.C01.inv_detachRaw", "full"),
@@ -43,6 +44,7 @@ THEOREMS = [
     ("Anytree.Props.C01c.fuel_suffices", "full"),
     ("Anytree.Props.C01d.fuel_suffices_faults", "full"),
     ("Anytree.Props.C01d.fuel_suffices_oneshot", "full"),
+    ("Anytree.Props.C02r.inv_setParentR", "full"),
 ]
 NOT_COVERED = ["the fuel of the mirror is proved never to be the reason for an outcome when the fault schedule is bounded (C01d.fuel_suffices_faults: faults only at invocation counters below B, fuel above s.n+B+5; C01c.fuel_suffices without faults); for an unbounded (persistent) schedule no fuel suffices, and the implementation agrees: RecursionError, finding K4 (K4_persistent_preAttachChildren_diverges)"]
 ASSERTION_SETTINGS = (False, True)
